@@ -374,8 +374,9 @@ Section RecIntMG.
   Section MGI.
     Variable p : Z.
     Definition mgi_of_ruint (c : Z) : Z := c mod p.
+    (* rmint(T b), T signed: Value(|b|); mod_n(Value, p); if (b < 0) neg(this)   [as repaired by frag/C07.fix-3] *)
     Definition mgi_of_signed (b : Z) : Z :=
-      let v := (Z.abs b) mod p in if b <? 0 then (p - v) mod B else v.
+      let v := (Z.abs b) mod p in if b <? 0 then rm_neg p v else v.
     Definition mgi_of_rint (c : Z) : Z :=
       let v := (Z.abs c) mod p in if c <? 0 then rm_neg p v else v.
     Definition mgi_get_ruint (a : Z) : Z := a.
